@@ -132,10 +132,13 @@ pub fn run_prop(ctx: &Ctx, sink: &mut Sink) {
         let refp = top.join("ref");
         std::fs::write(&refp, b"r").unwrap();
         // reference a and m are chosen; c is whatever the clock says when they are set
-        let ref_a: i128 = (1_000_000_000 + rng.below(100_000_000) as i128) * NS + rng.below(1_000_000_000) as i128;
-        let ref_m: i128 = (1_200_000_000 + rng.below(100_000_000) as i128) * NS + rng.below(1_000_000_000) as i128;
+        // one round in three lies before 1970: the order of two timestamps is the order of the instants, not of their distances from the epoch
+        let pre_epoch = rng.chance(1, 3);
+        let shift: i128 = if pre_epoch { -1_400_000_000 } else { 0 };
+        let ref_a: i128 = (1_000_000_000 + shift + rng.below(100_000_000) as i128) * NS + rng.below(1_000_000_000) as i128;
+        let ref_m: i128 = (1_200_000_000 + shift + rng.below(100_000_000) as i128) * NS + rng.below(1_000_000_000) as i128;
         let deltas: [i128; 5] = [-NS, -1, 0, 1, NS];
-        let far_past: i128 = 500_000_000 * NS;
+        let far_past: i128 = if pre_epoch { -600_000_000 * NS } else { 500_000_000 * NS };
         let far_future: i128 = 3_000_000_000 * NS;
         let mut n_files = 0;
         let mut mk = |a: i128, m: i128, n_files: &mut usize| {
